@@ -19,6 +19,7 @@ const (
 	volumeDescriptorHeaderSize           = 7
 	volumeDescriptorBodySize             = sectorSize - volumeDescriptorHeaderSize
 	pathTableItemsLimit                  = 0x10000
+	maxDirectoryRecordSize               = 255 // the record length is stored in one byte
 
 	volumeTypeBoot          byte = 0
 	volumeTypePrimary       byte = 1
